@@ -121,3 +121,84 @@ Example C08_ex_unpack :
   @def_unpack nat [ANoArgs; ANormal 0 None; ANormal 1 (Some 7)] = Some [mkParam 0 KwOnly None; mkParam 1 KwOnly (Some 7)] /\
   names_unique [] [3; 20] = true /\ names_unique [] [3; 20; 3] = false.
 Proof. repeat split; reflexivity. Qed.
+
+(* ---- ParametersSpecBuilder ---------------------------------------------------------------------------------- *)
+(* `build_spec` is not an assumption about the builder: running the builder's methods one call at a time, in the
+   order InstrDefImpl::run_with_args makes them for a well-formed parameter list (`steps_of`), and then `finish`,
+   produces exactly build_spec sg: kinds, names, the name map without positional-only names, positional_only,
+   positional, and the *args / **kwargs indices - and no assert fires on the way. *)
+Theorem C08_builder_builds_spec : forall (V : Type) (sg : sig V), wf_sig sg = true ->
+  b_finish (fold_left (@builder_step V) (steps_of sg) (Some b_init)) = Some (build_spec sg).
+Proof. exact builder_builds_spec. Qed.
+
+(* The asserts of the builder's methods (required/optional/defaulted, args, kwargs, no_more_positional_only_args,
+   no_more_positional_args, finish) fire on exactly the call sequences that leave the order
+   P* [/ P*] [{args or bare star} P*] [kwargs] or repeat a name that can be passed by keyword. *)
+Theorem C08_builder_order_checked : forall (V : Type) (l : list (bstep V)),
+  b_finish (fold_left (@builder_step V) l (Some b_init)) <> None <-> steps_ok 0 [] l = true.
+Proof. exact run_builder_order_checked. Qed.
+Theorem C08_builder_methods_order_checked : forall (V : Type) (l : list (bstep V)),
+  fold_left (@builder_step V) l (Some b_init) <> None <-> steps_ok 0 [] l = true.
+Proof. exact builder_order_checked. Qed.
+
+(* ---- the static checks are complete as well as sound ---------------------------------------------------------- *)
+(* Every well-formed signature in which no required positional parameter follows a defaulted one and *args / **kwargs
+   carry no default is the result of DefParams::unpack on a parameter list (the one written back by render_sig) ... *)
+Theorem C08_def_unpack_complete : forall (V : Type) (sg : sig V),
+  wf_sig sg = true -> dflt_ok false sg = true -> def_unpack (render_sig sg) = Some sg.
+Proof. exact def_unpack_complete. Qed.
+(* ... and these are all its results. *)
+Theorem C08_def_unpack_image : forall (V : Type) (sg : sig V),
+  (exists ps, def_unpack ps = Some sg) <-> (wf_sig sg = true /\ dflt_ok false sg = true).
+Proof. exact def_unpack_image. Qed.
+(* The duplicate check of named arguments accepts exactly the duplicate-free lists. *)
+Theorem C08_names_unique_iff : forall l : list name, names_unique [] l = true <-> NoDup l.
+Proof. exact names_unique_iff. Qed.
+
+(* ---- `*seq` that is not iterable, `**map` that is not a dict ---------------------------------------------------- *)
+(* The binder extended with the two type errors, raised where the code raises them, still computes the call rule
+   (extended by: `*seq` must be iterable, `**map` must be a mapping); on well-typed calls it is the binder above. *)
+Theorem C08_collect_x_eq_spec : forall (V : Type) (sg : sig V) (c : xcall V),
+  wf_sig sg = true -> NoDup (map fst (x_named c)) ->
+  outcome_of_x (collect_x sg c) = outcome_of_spec (bind_x sg c).
+Proof. exact collect_x_eq_spec. Qed.
+Theorem C08_collect_x_embed : forall (V : Type) (sg : sig V) (c : call V),
+  collect_x sg (x_of_call c) = lift_x (collect sg c).
+Proof. exact collect_x_embed. Qed.
+
+(* the builder on def f(a, /, b=101, *c, d, **e): the calls made, the state machine accepts them, finish = build_spec *)
+Example C08_ex_builder :
+  steps_of ex_sig = [BRequired 0; BNoMorePosOnly; BDefaulted 1 101; BArgs 2; BRequired 3; BKwargs 4] /\
+  run_builder (steps_of ex_sig) = Some (build_spec ex_sig) /\
+  ps_map (build_spec ex_sig) = [(1, 1); (3, 3)] /\ ps_npos_only (build_spec ex_sig) = 1 /\
+  ps_npos (build_spec ex_sig) = 2 /\ ps_args (build_spec ex_sig) = Some 2 /\ ps_kwargs (build_spec ex_sig) = Some 4 /\
+  (* def g(a, *, b): a bare `*` *)
+  steps_of [mkParam 0 PosOrKw (@None nat); mkParam 1 KwOnly None] = [BNoMorePosOnly; BRequired 0; BNoMorePos; BRequired 1].
+Proof. repeat split; reflexivity. Qed.
+(* ill-ordered call sequences panic: a parameter after **kwargs, `/` after `*`, two *args, a repeated keyword name;
+   a repeated positional-only name is not checked by the builder (DefParams::unpack rejects it earlier) *)
+Example C08_ex_builder_rejects :
+  run_builder [BKwargs 9; BRequired (V := nat) 0] = None /\
+  run_builder [BNoMorePos; BNoMorePosOnly (V := nat)] = None /\
+  run_builder [BArgs (V := nat) 1; BArgs 2] = None /\
+  run_builder [BNoMorePosOnly; BRequired (V := nat) 0; BRequired 0] = None /\
+  run_builder [BRequired (V := nat) 0; BRequired 0] <> None /\
+  run_builder [BOptional (V := nat) 0; BNoMorePosOnly; BOptional 1] <> None.
+Proof. repeat split; try reflexivity; discriminate. Qed.
+(* render_sig writes ex_sig back as `a, /, b=101, *c, d, **e`; a signature with a required positional after a default is
+   well-formed for the binder but is not the image of any parameter list *)
+Example C08_ex_render :
+  render_sig ex_sig = [ANormal 0 None; ASlash; ANormal 1 (Some 101); AArgs 2; ANormal 3 None; AKwArgs 4] /\
+  dflt_ok false ex_sig = true /\
+  (let bad := [mkParam 0 PosOrKw (Some 7); mkParam 1 PosOrKw None] in wf_sig bad = true /\ dflt_ok false bad = false).
+Proof. repeat split; reflexivity. Qed.
+(* f(1, d=2, *5) : not iterable ; f(1, d=2, **5) : not a dict ; f(1, 2, b=3, **5) : the clash is reported first *)
+Example C08_ex_illtyped :
+  collect_x ex_sig (mkXCall [1] [(3, 2)] (Some StarNotIterable) None) = XFail XArgsNotIterable /\
+  bind_x ex_sig (mkXCall [1] [(3, 2)] (Some StarNotIterable) None) = None /\
+  collect_x ex_sig (mkXCall [1] [(3, 2)] None (Some KwNotDict)) = XFail XKwNotDict /\
+  bind_x ex_sig (mkXCall [1] [(3, 2)] None (Some KwNotDict)) = None /\
+  collect_x ex_sig (mkXCall [1; 2] [(1, 3)] None (Some KwNotDict)) = XFail (XErr (ERepeated 1)) /\
+  collect_x ex_sig (mkXCall [1] [(3, 2)] (Some (StarSeq [8])) (Some (KwDict [(KStr 20, 5)])))
+    = XOk [Some (SVal 1); Some (SVal 8); Some (STuple []); Some (SVal 2); Some (SDict [(20, 5)])].
+Proof. repeat split; reflexivity. Qed.
